@@ -425,6 +425,14 @@ impl<CharIter: Iterator<Item = char>> Lexer<CharIter> {
         }
     }
 
+    // an integer literal that does not fit the exact representation is an error, not a panic
+    fn integer(&self, number_literal: &str) -> Result<Option<TokenData>> {
+        match number_literal.parse::<i32>() {
+            Ok(value) => Ok(Some(TokenData::Primitive(Primitive::Integer(value)))),
+            Err(_) => located_error!(SyntaxError::UnrecognizedToken, Some(self.location)),
+        }
+    }
+
     fn number(&mut self) -> Result<Option<TokenData>> {
         match self.current.take() {
             Some(c) => {
@@ -453,31 +461,37 @@ impl<CharIter: Iterator<Item = char>> Lexer<CharIter> {
                                 let mut denominator = String::new();
                                 self.advance(1);
                                 self.digital10(&mut denominator)?;
-                                break Ok(Some(TokenData::Primitive(Primitive::Rational(
-                                    number_literal.parse::<i32>().unwrap(),
-                                    match denominator.parse::<u32>().unwrap() {
-                                        0 => {
-                                            return located_error!(
-                                                SyntaxError::RationalDivideByZero,
-                                                Some(self.location)
-                                            )
-                                        }
-                                        other => other,
-                                    },
-                                ))));
+                                if let Some(nnc) = self.peekable_char_stream.peek() {
+                                    Self::test_delimiter(Some(self.location), *nnc)?;
+                                }
+                                // "1/" has no denominator; components beyond i32 cannot be held exactly
+                                let components = (
+                                    number_literal.parse::<i32>(),
+                                    denominator.parse::<i32>(),
+                                );
+                                break match components {
+                                    (Ok(_), Ok(0)) => located_error!(
+                                        SyntaxError::RationalDivideByZero,
+                                        Some(self.location)
+                                    ),
+                                    (Ok(numerator), Ok(denominator)) => {
+                                        Ok(Some(TokenData::Primitive(Primitive::Rational(
+                                            numerator,
+                                            denominator as u32,
+                                        ))))
+                                    }
+                                    _ => located_error!(
+                                        SyntaxError::UnrecognizedToken,
+                                        Some(self.location)
+                                    ),
+                                };
                             }
                             _ => {
                                 Self::test_delimiter(Some(self.location), *nc)?;
-                                break Ok(Some(TokenData::Primitive(Primitive::Integer(
-                                    number_literal.parse::<i32>().unwrap(),
-                                ))));
+                                break self.integer(&number_literal);
                             }
                         },
-                        None => {
-                            break Ok(Some(TokenData::Primitive(Primitive::Integer(
-                                number_literal.parse::<i32>().unwrap(),
-                            ))))
-                        }
+                        None => break self.integer(&number_literal),
                     }
                 }
             }
